@@ -21,6 +21,21 @@ CLAIMS = {
 }
 
 PENDING = set()   # machinery exists, proofs still in progress: not claimed yet
+ARENA_TECH = ("Lean 4 proofs over a hand-written executable arena model whose pointer arithmetic is the translated (generated) code; "
+              "tie = address-exact correspondence harness (real crate vs model on generated traces, base-allocator responses as inputs) + direct oracle on the implementation")
+def arena_claim(text, ref):
+    return dict(engine="arena", technique=ARENA_TECH, text=text, ref=ref, note=NOTE_MODEL)
+
+CLAIMS.update({
+ "C03": arena_claim("Proved on the arena model for all states (step level): reset_to(checkpoint) restores current chunk, position and allocated() exactly, releases nothing and makes no base-allocator request; scope enter/exit are exactly this pair and kill exactly the blocks created inside; allocation only appends chunks; replaying a workload (also in a new scope) needs no new memory; a reset() round that acquires nothing stays stable. Partial: finiteness of the reset loop (growth argument) and scoped_aligned/alloc_try_with at stepCore level rely on the same resetTo lemmas. Tie: correspondence + restore/replay oracles on the real crate.", "§7 C03"),
+ "C05": arena_claim("Proved on the arena model: drop releases every chunk exactly once (permutation of the owned list), reset releases all but the last (= largest) chunk, reset_to_start / reset_to / deallocate / fast-path allocation make no request, a new chunk's size lies between requested and granted with the request's alignment, failed/invalid requests own nothing, an unallocated arena stays silent. Partial: the exactly-once ledger as one induction over all operations is stated as target. Tie: request-sequence correspondence + ledger/guard-byte/poison oracle of the test base allocators.", "§7 C05"),
+ "C07": arena_claim("Proved on the arena model: whenever alloc/allocGeneric/inAnotherChunk/reserve/grow/shrink return an error value the state is intact (same live blocks, same bytes, same geometry, positions up to the current chunk unchanged) and at most one request was made; a refusing base allocator yields an error value, not a fault; size overflow yields capacity-overflow with no request; claimed arenas yield `claimed`. Partial: no-fault of grow/shrink's in-place arithmetic before the allocation attempt is a target. Tie: correspondence under injected failures (each index, subsets, fail-all) + all content/ledger/invariant oracles after failures.", "§7 C07"),
+ "C13": arena_claim("Proved on the arena model: deallocating the newest block and requesting the same layout again returns the same address (up and down); growing the newest block upwards with room stays in place; deallocate/shrink of any other block is the identity; DEALLOCATES=false / WithoutDealloc make deallocate the identity, SHRINKS=false / WithoutShrink (fitting alignment) make shrink the identity. Partial: allocated() monotonicity for the alignment-raising shrink under opt-out is a target (covered by the oracle). Tie: correspondence + same-address / allocated-monotonicity oracles.", "§7 C13"),
+ "C14": arena_claim("Proved on the arena model (using C11 on the dummy range): on a claimed handle every memory request returns the `claimed` error with the state unchanged, deallocate and fitting shrink are the identity, statistics are all zero, a second claim panics; claim followed by claim-end is the identity and everything done through the guard is kept. Tie: correspondence with interleaved operations on original and claimant + claimed-handle oracles.", "§7 C14"),
+ "C15": arena_claim("Proved on the arena model: prepare (typed and untyped, fast and slow path, including failures) leaves every chunk up to the old current one identical (only later chunks are reset and `cur` may advance), filling only writes bytes, abandoning changes nothing, finalising moves the position to the far end of the contents with bytes ≤ Δ < bytes + minAlign and the block holds exactly the bytes written (all four direction combinations). Tie: correspondence + position-snapshot and advance oracles.", "§7 C15"),
+ "C17": arena_claim("Proved on the arena model: truthful hints never change a result (typed fast paths = generic layout path, via C11), the WithoutDealloc/WithoutShrink wrappers forward allocate/grow unchanged, typed and trait-object reserve agree whenever the request fits the current chunk; the deviation C17-a (trait-object reserve switches chunks otherwise) is proved by witness and reported as KNOWN-FINDING. All real entry points (Bump/BumpScope/&/&&/dyn, try_ and panicking twins) are tied to the single model operation by the correspondence.", "§7 C17"),
+})
+
 NOT_YET = "check under construction in this round; will be claimed as soon as its theorem + correspondence + oracle run end-to-end (DESIGN.md §13)"
 
 def main():
@@ -49,6 +64,9 @@ def main():
                   "baseline_off_cmd": "cd /repo && cargo test --workspace --no-fail-fast --offline",
                   "source_commits": [], "add_only": True},
         "engines": [
+            {"name": "arena", "path": "harness/src/bin/arena.rs (+ src/arena_inc, src/scope_ops.rs, src/base.rs) + lean/BumpProof/Arena + lean/Driver/ArenaD.lean + checks/engines/arena.py",
+             "serves_properties": ["C01", "C02", "C03", "C05", "C07", "C10", "C13", "C14", "C15", "C17", "C18"],
+             "kind_free_text": "hand-written executable Lean model + Lean theorems + correspondence harness against the real crate + direct oracles"},
             {"name": "purefn", "path": "harness/src/bin/purefn.rs + lean/Driver/Pure.lean + translator/rs2lean.py", "serves_properties": ["C11", "C12"],
              "kind_free_text": "translator (Rust subset → Lean) + translation validation + differential oracle against wide-integer specs"},
         ],
